@@ -109,7 +109,9 @@ fn run_kind<'s, I: Kind<'s>>(sub: &str, g: &G, toks: &[char], extra: &serde_json
         return fail(case, &sig, msg);
     };
     if let Some(v) = &o.out {
-        if let Err(m) = span_sanity(v, sm, is_cb) {
+        // a lookahead inside an item source that is observed as a whole captures spans beyond what its parent consumed
+        let lookahead_in_item_source = g.any_node(&|n| matches!(n, G::IterThen(parts, _) if parts.iter().any(|p| p.any_node(&|m| matches!(m, G::Rewind(_) | G::AndIs(..) | G::Not(_))))));
+        if let Err(m) = span_sanity_opts(v, sm, is_cb, !lookahead_in_item_source) {
             return fail(case, "C07/span-malformed", format!("{} in {:?}", m, v));
         }
     }
@@ -205,6 +207,9 @@ pub fn check_case(case: &Case, l: &mut Local) -> Result<(), Fail> {
     if case.sub == "bytes-static" {
         let bytes: Vec<u8> = case.toks().iter().map(|c| *c as u8).collect();
         return bytes_case(&bytes, l).map_err(|(_, f)| f);
+    }
+    if case.sub == "spantypes-static" {
+        return span_types_case(&case.input, l).map_err(|(_, f)| f);
     }
     if case.sub == "itermap-static" {
         return iter_map_with_case(&case.input, l).map_err(|(_, f)| f);
@@ -499,6 +504,73 @@ fn iter_map_with_case(s: &str, l: &mut Local) -> CaseRes {
     Ok(())
 }
 
+
+// ---------------------------------------------------------------------------------------------
+// the span TYPE of a token-span input: SimpleSpan, Range<usize>, and the tuple spans (context, span) -- each has its own
+// implementation of `Span` (new / start / end / context); captured spans must be the same numbers whatever the type
+
+fn span_types_case(s: &str, l: &mut Local) -> CaseRes {
+    use chumsky::input::Input as _;
+    use chumsky::prelude::*;
+    use chumsky::span::Span as SpanT;
+    let toks: Vec<char> = s.chars().collect();
+    let case = |name: &str| {
+        let mut c = Case::new(ID, "spantypes-static", &G::Empty, &toks);
+        c.extra = json!({ "span type": name });
+        c
+    };
+    let (spans, eoi) = gapped(toks.len(), 3 + toks.len() as u64);
+    fn se<S: SpanT<Offset = usize>>(sp: &S) -> (usize, usize) {
+        (sp.start(), sp.end())
+    }
+    // the family, generic over the mapped input type: spans of two-token chunks, of an a-run and the rest, of an empty match
+    fn fam<'a, I>(mk: &dyn Fn() -> I) -> Option<Vec<(usize, usize)>>
+    where
+        I: chumsky::input::ValueInput<'a, Token = char> + 'a,
+        I::Span: SpanT<Offset = usize> + Clone + 'a,
+    {
+        type E<'a, I> = chumsky::extra::Err<chumsky::error::Cheap<<I as chumsky::input::Input<'a>>::Span>>;
+        let p1 = any::<I, E<'a, I>>().then(any().or_not()).to_span().map(|sp: I::Span| se(&sp)).repeated().collect::<Vec<_>>();
+        let p2 = just::<_, I, E<'a, I>>('a')
+            .repeated()
+            .to_span()
+            .map(|sp: I::Span| se(&sp))
+            .then(empty().to_span().map(|sp: I::Span| se(&sp)))
+            .then(any().repeated().map_with(|_, e| { let sp: I::Span = e.span(); se(&sp) }))
+            .map(|((a, b), c)| vec![a, b, c]);
+        let r = quietly(|| (p1.parse(mk()).into_output(), p2.parse(mk()).into_output()));
+        match r {
+            Ok((Some(mut a), Some(b))) => {
+                a.extend(b);
+                Some(a)
+            }
+            _ => None,
+        }
+    }
+    let t0: Vec<(char, SimpleSpan)> = toks.iter().zip(&spans).map(|(c, sp)| (*c, SimpleSpan::from(sp.0..sp.1))).collect();
+    let t1: Vec<(char, std::ops::Range<usize>)> = toks.iter().zip(&spans).map(|(c, sp)| (*c, sp.0..sp.1)).collect();
+    let t2: Vec<(char, (u8, SimpleSpan))> = toks.iter().zip(&spans).map(|(c, sp)| (*c, (7u8, SimpleSpan::from(sp.0..sp.1)))).collect();
+    let t3: Vec<(char, (u8, std::ops::Range<usize>))> = toks.iter().zip(&spans).map(|(c, sp)| (*c, (7u8, sp.0..sp.1))).collect();
+    let base = fam(&|| t0.as_slice().map(SimpleSpan::from(eoi.0..eoi.1), |(t, sp): &(char, SimpleSpan)| (t, sp)));
+    l.evals += 2;
+    let others: Vec<(&str, Option<Vec<(usize, usize)>>)> = vec![
+        ("Range<usize>", fam(&|| t1.as_slice().map(eoi.0..eoi.1, |(t, sp): &(char, std::ops::Range<usize>)| (t, sp)))),
+        ("(u8, SimpleSpan)", fam(&|| t2.as_slice().map((7u8, SimpleSpan::from(eoi.0..eoi.1)), |(t, sp): &(char, (u8, SimpleSpan))| (t, sp)))),
+        ("(u8, Range<usize>)", fam(&|| t3.as_slice().map((7u8, eoi.0..eoi.1), |(t, sp): &(char, (u8, std::ops::Range<usize>))| (t, sp)))),
+    ];
+    if base.is_none() {
+        return Err((case("SimpleSpan"), Fail::new("C07/panic", format!("the span-capturing parsers failed / panicked on the SimpleSpan token input {:?}", t0))));
+    }
+    for (name, got) in others {
+        l.evals += 2;
+        if got != base {
+            return Err((case(name), Fail::new("C07/span-type", format!("token spans {:?} (eoi {:?}): captured (start, end) pairs with {} token spans: {:?}; with SimpleSpan token spans: {:?}", spans, eoi, name, got, base))));
+        }
+        l.bump("span_type_comparisons");
+    }
+    Ok(())
+}
+
 pub fn decode(tape: &[u32]) -> (G, Vec<char>, &'static str, u64) {
     let mut t = Tape::new(tape);
     let kind = ["str", "str", "slice", "stream", "spslice", "spslice", "spstream", "spiter"][t.pick(8)];
@@ -565,6 +637,7 @@ pub fn run(tier: Tier, seed: u64) -> i32 {
     ctx.par_jobs(&ichunks, |ch, l| {
         for s in ch.iter() {
             iter_map_with_case(s, l)?;
+            span_types_case(s, l)?;
         }
         Ok(())
     });
